@@ -279,7 +279,13 @@ def _replay_row(w, row, objs, real, jmap, confs, lcm, opts, out):
             _issue(out, "C11", "hint_rejected", row, None, objs,
                    f"supported hint {hint!r} (spelling {sp}) raises {type(ex).__name__}: {str(ex)[:200]}")
             continue
-        th = TypeHint(hint)
+        try:
+            th = TypeHint(hint)
+        except Exception as ex:      # noqa  (hints the DOOR API documents as unsupported, e.g. PEP 695 aliases)
+            from beartype.roar import BeartypeDoorException
+            if not isinstance(ex, BeartypeDoorException):
+                raise
+            th = None
         verd = [None] * n               # bitmask of accepting residues, from is_bearable
         for j in range(n):
             x = _fresh(w, objs, real, j)
@@ -398,6 +404,8 @@ def _replay_row(w, row, objs, real, jmap, confs, lcm, opts, out):
                     want = bool(verd[j] >> r & 1)
                     big = (row["hid"] + j + r) % 3
                     for name in ("die", "th_is", "th_die", "param", "ret"):
+                        if th is None and name in ("th_is", "th_die"):
+                            continue
                         set_draw(r, lcm, big)
                         DRAW.calls = 0
                         x2 = _fresh(w, objs, real, j) if objs[j]["k"] == "iter" else x
